@@ -202,7 +202,12 @@ def corpus_text(src):
     # xyz: a comment line that is itself an integer turns "count line deleted" into another well-formed file
     mols = [chem.build_molecule(dict(r, name=("m_" + r["name"]) if fmt == "xyz" else r["name"]), ml.Molecule) for r in src["mols"]]
     texts = [getattr(m, "dumps_" + fmt)() for m in mols]
-    if fmt == "mol2" and src.get("substructure"):
+    if fmt == "mol2" and src.get("unity_last"):
+        # another flavour: per-atom attributes (formal charges) in a UNITY_ATOM_ATTR block that comes AFTER the bonds, followed by a
+        # record block molli does not implement - the attribute records announce their own number of lines
+        texts = [t + "@<TRIPOS>UNITY_ATOM_ATTR\n1 1\ncharge 1\n" + (f"{m.n_atoms} 1\ncharge -1\n" if m.n_atoms > 1 else "")
+                 + "@<TRIPOS>SUBSTRUCTURE\n     1 UNL1        1 TEMP              0 ****  ****    0 ROOT\n" for t, m in zip(texts, mols)]
+    elif fmt == "mol2" and src.get("substructure"):
         # layout of OpenBabel / Chimera files: every molecule ends with a record block molli does not implement
         texts = [t + "@<TRIPOS>SUBSTRUCTURE\n     1 UNL1        1 TEMP              0 ****  ****    0 ROOT\n" for t in texts]
     return fmt, "".join(texts)
@@ -496,7 +501,7 @@ def _srcs(tier):
     molr = chem.molecule_recipe(max_atoms=7, max_bonds=9, attribs=False, mol2_safe=True, min_atoms=1).map(_clean)
     gen = st.lists(molr, min_size=2, max_size=5).map(_different_counts).filter(lambda l: len(l) >= 2)
     return st.one_of(
-        st.fixed_dictionaries({"fmt": st.just("mol2"), "mols": gen, "substructure": st.booleans()}),
+        st.fixed_dictionaries({"fmt": st.just("mol2"), "mols": gen, "substructure": st.booleans(), "unity_last": st.sampled_from([False, False, True])}),
         st.fixed_dictionaries({"fmt": st.just("xyz"), "mols": gen}),
         st.sampled_from([{"fmt": "mol2", "file": f} for f in MOL2_FILES[:4] + ["isornitrate_mol2", "isornitrate_mol2"]] + [{"fmt": "xyz", "file": f} for f in XYZ_FILES]),
     )
@@ -575,7 +580,7 @@ def classify(recipe):
     if "runs" in recipe:
         return False, ["fuzz_campaign", "corpus=" + ("seeded" if recipe.get("seeded_corpus") else "empty")]
     s = recipe["src"]
-    return False, ["fmt=" + s["fmt"], "corpus=" + ("bundled" if "file" in s else "generated")] + (["with_unimplemented_record_blocks"] if s.get("substructure") else [])
+    return False, ["fmt=" + s["fmt"], "corpus=" + ("bundled" if "file" in s else "generated")] + (["with_unimplemented_record_blocks"] if s.get("substructure") else []) + (["UNITY_ATOM_ATTR_after_the_bonds"] if s.get("unity_last") else [])
 
 
 LEGS = [
